@@ -81,15 +81,284 @@ ScopeOK(prog, lay) ==
                       /\ SetOf(lay[j].cells) \subseteq FunLocals(fn)          \* ... and only locals have cells (the engine also gives
                                                                               \* `arguments` one when an inner function mentions its own)
                       /\ lay[j].frees = <<>>
+\* the judged projections of an observation: log, outcome, and the compiled slot layouts (the distinct ones: a batch run
+\* contributes hundreds of observations of one program)
+\* (hl: the driver exported the layouts with this observation - it does not in the enumerated histories)
+Lays(r) == {r.obs[j].lay : j \in {q \in 1..Len(r.obs) : r.obs[q].hl}}
+\* r.exp: the class of outcome the specification prescribes for the program ("" = left open), see ItemExp below
 EqVerdict(r) ==
   LET o1 == r.obs[1]
       eq == \A j \in 1..Len(r.obs) : r.obs[j].log = o1.log /\ r.obs[j].out = o1.out
-      shp == \A j \in 1..Len(r.obs) : SameShape(o1.lay, r.obs[j].lay)
-      scp == ~r.ast \/ \A j \in 1..Len(r.obs) : ScopeOK(r.prog, r.obs[j].lay)
-      nlay == Cardinality({r.obs[j].lay : j \in 1..Len(r.obs)})
-  IN [id |-> r.id, eq |-> eq, shape |-> shp, scope |-> scp, nlay |-> nlay,
-      first |-> IF eq THEN 0 ELSE CHOOSE j \in 1..Len(r.obs) : r.obs[j].log # o1.log \/ r.obs[j].out # o1.out]
+      shp == \A l \in Lays(r) : SameShape(o1.lay, l)                      \* the first observation always has them
+      scp == ~r.ast \/ \A l \in Lays(r) : ScopeOK(r.prog, l)
+      cls == r.exp = "" \/ \A j \in 1..Len(r.obs) : r.obs[j].out.o = r.exp
+      nlay == Cardinality(Lays(r))
+  IN [id |-> r.id, eq |-> eq, shape |-> shp, scope |-> scp, cls |-> cls, nlay |-> nlay,
+      first |-> IF eq THEN 0 ELSE CHOOSE j \in 1..Len(r.obs) : r.obs[j].log # o1.log \/ r.obs[j].out # o1.out,
+      firstcls |-> IF cls THEN 0 ELSE CHOOSE j \in 1..Len(r.obs) : r.obs[j].out.o # r.exp]
 EqInit == /\ rec_i \in 1..Len(Recs) /\ cur = <<>> /\ mst = [ctl |-> [m |-> "halt"]]
           /\ PrintT(ToJson(EqVerdict(Recs[rec_i])))
 EqNext == UNCHANGED vars
+
+\* ====================================================================================================================
+\* The spaces C15 enumerates itself (next to the C05 families CL / HO / EO and the seeded programs):
+\*   CO  hash-seed dimension : three function levels, several captured names first mentioned in different orders
+\*   FF  failing programs    : what fails x how deep x how the functions are made x what encloses the failing statement
+\*   FV  bystander programs  : use the names of FF's locals as globals / locals / undeclared names / labels
+\*   TX  programs whose built-ins compile or parse text at run time (regex literals, RegExp, string patterns, eval, ...)
+\*   H*  histories           : which programs are evaluated, in which order, on fresh contexts of ONE process, how often,
+\*                             and how much time passes between two evaluations
+\* ====================================================================================================================
+SRaw(t) == [s |-> "raw", t |-> t]                    \* text that is not in the language (rendered as it is)
+Mul(a, b) == Bin("*", a, b)
+Perms(n) == {f \in [1..n -> 1..n] : \A a, b \in 1..n : f[a] = f[b] => a = b}
+Rev(sq) == [j \in 1..Len(sq) |-> sq[Len(sq) + 1 - j]]
+
+\* ======================= family CO: capture order =========================================================================
+\* O(p) declares k variables; the middle function M mentions them in one order (or not at all, or only two of them), the
+\* function I made by M mentions them in the order io; B writes the one I mentions first; dp = 1: I reaches them through one
+\* more function level.  The value of I tells which name is wired to which variable (weights 1000, 100, 10, 1).
+CONames(ns) == IF ns = "short" THEN <<"a", "b", "c", "d">> ELSE <<"alpha", "beta", "gamma", "delta">>
+COWeight == <<1000, 100, 10, 1>>
+COTerm(nm, q) == Mul(Var(nm[q]), I(COWeight[q]))
+RECURSIVE COSumR(_, _, _)
+COSumR(nm, ord, acc) == IF ord = <<>> THEN acc ELSE COSumR(nm, Tail(ord), Plus(acc, COTerm(nm, Head(ord))))
+COSum(nm, ord) == COSumR(nm, Tail(ord), COTerm(nm, Head(ord)))
+COMidOrder(c) == CASE c.mid = "use" -> [j \in 1..c.k |-> j] [] c.mid = "rev" -> Rev([j \in 1..c.k |-> j])
+                   [] c.mid = "part" -> <<c.io[c.k], c.io[1]>> [] c.mid = "pass" -> <<>>
+COMBody(c) ==
+  LET nm == CONames(c.ns)
+      sum == COSum(nm, c.io)
+      ibody == IF c.dp = 0 THEN <<SRet(sum)>> ELSE <<SRet(Call(FnL(c.lvl, <<>>, <<SRet(sum)>>), <<>>))>>
+  IN (IF c.mid = "pass" THEN <<>> ELSE <<SLog(COSum(nm, COMidOrder(c)))>>)
+     \o <<SVar1("I", FnL(c.lvl, <<>>, ibody)),
+          SVar1("B", FnL(c.lvl, <<>>, <<Set(nm[c.io[1]], Plus(Var(nm[c.io[1]]), I(100)))>>)),
+          SLog(Call(Var("I"), <<>>)), SExpr(Call(Var("B"), <<>>)), SLog(Call(Var("I"), <<>>)), SRet(Var("t"))>>
+COProg(c) ==
+  LET nm == CONames(c.ns) IN
+  Prog(<<SFun("O", <<"p">>,
+              <<SVar([j \in 1..c.k |-> Decl(nm[j], Plus(Var("p"), I(j)))]),
+                IF c.lvl = "arrow" THEN SVar1("M", Arrow(<<"t">>, COMBody(c))) ELSE SFun("M", <<"t">>, COMBody(c)),
+                SLog(Call(Var("M"), <<I(5)>>)), SRet(COSum(nm, [j \in 1..c.k |-> j]))>>),
+         SLog(Call(Var("O"), <<I(0)>>)), SLog(Call(Var("O"), <<I(10)>>)), SLog(I(50))>>)
+COAll == UNION {[k : {k}, io : Perms(k), mid : {"use", "rev", "part", "pass"}, lvl : {"fn", "arrow"}, ns : {"short", "long"}, dp : {0, 1}] : k \in 2..4}
+\* quick: every order of four names under the plain middle function; two orders with every other dimension; the orders of
+\* three and two names
+COQuickSel(c) ==
+  \/ (c.k = 4 /\ c.mid = "use" /\ c.lvl = "fn" /\ c.ns = "short" /\ c.dp = 0)
+  \/ (c.k = 4 /\ c.io \in {<<4, 3, 2, 1>>, <<2, 4, 1, 3>>})
+  \/ (c.k < 4 /\ c.mid = "use" /\ c.lvl = "fn" /\ c.ns = "long" /\ c.dp = 0)
+COCases == {c \in COAll : ~Quick \/ COQuickSel(c)}
+
+\* ======================= family FF: programs that fail ==================================================================
+\* fk   : what goes wrong.  Rejected before anything runs: text that is not a program (syn_*), an assignment / update / for-in
+\*        target that is no reference, break / continue without a loop, an unknown label; refused by the implementation: a
+\*        function too large for it; at run time: an uncaught throw, an unbound name, a member of null, a call of undefined;
+\*        stopped by a limit: time, memory.  "none": the same shape, nothing fails.
+\* d    : how many functions enclose the failing statement (0 = script level)
+\* lvl  : how those functions are made (declaration, function expression, arrow)
+\* encl : the statement around the failing statement
+\* The function at level j is f<x>(p<x>) with the variables v<x>, w<x> (w<x> is used by the next level), x = a, b, c.
+FFKinds == {"none", "syn_expr", "syn_paren", "syn_token", "syn_eof", "syn_close", "syn_asg", "syn_upd", "forinlhs",
+            "break", "continue", "breakL", "continueL", "toolarge", "throw", "referr", "typeerr", "notfn", "timelimit", "memlimit"}
+FFEncls == {"none", "if", "block", "while", "dowhile", "for", "forin", "forof", "switch", "label", "try", "catch", "finally"}
+FFLvls == {"fn", "fexpr", "arrow"}
+FFLoops == {"while", "dowhile", "for", "forin", "forof"}
+Letter(j) == <<"a", "b", "c">>[j]
+FN(kind, j) == kind \o Letter(j)
+FFFail(fk) ==
+  CASE fk = "none" -> <<SLog(I(1))>>
+    [] fk = "syn_expr" -> <<SRaw("var q = ;")>>
+    [] fk = "syn_paren" -> <<SRaw("if (q {")>>
+    [] fk = "syn_token" -> <<SRaw("q = 1 @ 2;")>>
+    [] fk = "syn_eof" -> <<SRaw("function z() {")>>
+    [] fk = "syn_close" -> <<SRaw("}")>>
+    [] fk = "syn_asg" -> <<SRaw("1 = q;")>>
+    [] fk = "syn_upd" -> <<SRaw("1++;")>>
+    [] fk = "forinlhs" -> <<SRaw("for (1 in {}) { }")>>
+    [] fk = "break" -> <<SBreak("")>>
+    [] fk = "continue" -> <<SCont("")>>
+    [] fk = "breakL" -> <<SBreak("Q")>>
+    [] fk = "continueL" -> <<SCont("Q")>>
+    [] fk = "toolarge" -> <<SLog(Dot(Arr([j \in 1..260 |-> I(1000 + j)]), "length"))>>
+    [] fk = "throw" -> <<SThrow(I(7))>>
+    [] fk = "referr" -> <<SExpr(Var("nope"))>>
+    [] fk = "typeerr" -> <<SExpr(Dot(ENull, "x"))>>
+    [] fk = "notfn" -> <<SVar1("u", NoE), SExpr(Call(Var("u"), <<>>))>>
+    [] fk = "timelimit" -> <<SWhile(EBool(TRUE), SBlock(<<>>))>>
+    [] fk = "memlimit" -> <<SVar1("R", Fun("R2", <<"n">>, <<SRet(Plus(Call(Var("R2"), <<Plus(Var("n"), I(1))>>), I(1)))>>)), SExpr(Call(Var("R"), <<I(0)>>))>>
+FFEncl(en, ss) ==
+  CASE en = "none" -> ss
+    [] en = "if" -> <<SIf(EBool(TRUE), SBlock(ss), NoS)>>
+    [] en = "block" -> <<SBlock(ss)>>
+    [] en = "while" -> <<SWhile(EBool(TRUE), SBlock(ss \o <<SBreak("")>>))>>
+    [] en = "dowhile" -> <<SDo(SBlock(ss), EBool(FALSE))>>
+    [] en = "for" -> <<SFor(SVar1("i", I(0)), Bin("<", Var("i"), I(1)), Upd("++", FALSE, "i"), SBlock(ss))>>
+    [] en = "forin" -> <<SForIn(TRUE, "k", Obj(<<"x">>, <<I(1)>>), SBlock(ss))>>
+    [] en = "forof" -> <<SForOf(TRUE, "e", Arr(<<I(1)>>), SBlock(ss))>>
+    [] en = "switch" -> <<SSwitch(I(1), <<Case(I(1), ss), Case(NoE, <<SLog(I(2))>>)>>)>>
+    [] en = "label" -> <<SLabel("L", SBlock(ss))>>
+    [] en = "try" -> <<STry(SBlock(ss), "e", NoS, SBlock(<<SLog(I(3))>>))>>
+    [] en = "catch" -> <<STry(SBlock(<<SThrow(I(1))>>), "e", SBlock(ss), NoS)>>
+    [] en = "finally" -> <<STry(SBlock(<<SLog(I(3))>>), "e", NoS, SBlock(ss))>>
+\* the code at nesting depth j: the next function and its call, or (at depth d) the statement that fails
+RECURSIVE FFCode(_, _)
+FFCode(c, j) ==
+  IF j = c.d THEN FFEncl(c.encl, FFFail(c.fk))
+  ELSE LET f == FN("f", j + 1)  p == FN("p", j + 1)  v == FN("v", j + 1)  w == FN("w", j + 1)
+           body == <<SVar(<<Decl(v, Plus(Var(p), IF j = 0 THEN I(1) ELSE Var(FN("w", j)))), Decl(w, I(j + 1))>>)>>
+                   \o FFCode(c, j + 1) \o <<SRet(Plus(Var(v), Var(w)))>>
+           def == CASE c.lvl = "fn" -> SFun(f, <<p>>, body)
+                    [] c.lvl = "fexpr" -> SVar1(f, Fun("", <<p>>, body))
+                    [] c.lvl = "arrow" -> SVar1(f, Arrow(<<p>>, body))
+       IN <<def, SLog(Call(Var(f), <<I(j + 1)>>))>>
+FFProg(c) == Prog(FFCode(c, 0) \o <<SLog(I(50))>>)
+FFAll == [fk : FFKinds, d : 0..3, lvl : FFLvls, encl : FFEncls]
+FFValid(c) ==
+  /\ (c.d = 0 => c.lvl = "fn")                                               \* no function: one representative
+  /\ (c.fk = "break" => c.encl \notin FFLoops \cup {"switch"})               \* there it would be legal
+  /\ (c.fk = "continue" => c.encl \notin FFLoops)
+\* quick: every kind at every depth; the other two ways to make the functions and every enclosing statement for one kind of
+\* each group, two functions deep
+FFQuickSel(c) ==
+  \/ (c.lvl = "fn" /\ c.encl = "none")
+  \/ (c.encl = "none" /\ c.d \in {1, 2, 3} /\ c.fk \in {"syn_token", "continue", "breakL", "toolarge", "throw", "timelimit"})
+  \/ (c.lvl = "fn" /\ c.d = 2 /\ c.fk \in {"syn_asg", "continue", "breakL", "referr", "memlimit"})
+FFCases == {c \in FFAll : FFValid(c) /\ (~Quick \/ FFQuickSel(c))}
+\* what the language says about the outcome ("" where the implementation is free: its own size limits)
+FFExp(c) == CASE c.fk = "none" -> "value"
+              [] c.fk \in {"throw", "referr", "typeerr", "notfn"} -> "jserror"
+              [] c.fk = "timelimit" -> "timelimit" [] c.fk = "memlimit" -> "memlimit"
+              [] c.fk = "toolarge" -> ""
+              [] OTHER -> "syntax"
+FFRef(c) == c.fk \in {"none", "throw", "referr", "typeerr", "notfn"}           \* MiniJS runs it
+FFMem(c) == IF c.fk = "memlimit" THEN 20000 ELSE 0                             \* memory limit of the context (0: none)
+
+\* ======================= family FV: bystanders ===========================================================================
+\* Programs that use the twelve names of FF's functions, parameters and variables: as globals at script level, from a
+\* function, from a closure, from arrows; as locals and captured locals of their own (with globals of the same names next
+\* to them); as names nobody declares; as their own function declarations; and loop exits / labels that FF's enclosing
+\* statements would have made legal.
+FVKinds == {"script", "fn", "closure", "arrow", "shadow", "undecl", "fdecl", "vbreak", "vcontinue", "vbreakL"}
+FVOrder == <<"script", "fn", "closure", "arrow", "shadow", "undecl", "fdecl", "vbreak", "vcontinue", "vbreakL">>
+FVGlobals == SVar([q \in 1..12 |-> LET j == ((q - 1) \div 4) + 1  kd == <<"f", "p", "v", "w">>[((q - 1) % 4) + 1] IN Decl(FN(kd, j), I(q))])
+\* what a user does to the names of level j: writes p, ++ w, reads v and f
+FVTouch(j) == <<Set(FN("p", j), Plus(Var(FN("p", j)), Var("n"))), SExpr(Upd("++", FALSE, FN("w", j)))>>
+FVRead(j) == Plus(Plus(Var(FN("p", j)), Var(FN("w", j))), Plus(Var(FN("v", j)), Var(FN("f", j))))
+FVUserBody == FVTouch(1) \o FVTouch(2) \o FVTouch(3) \o <<SRet(Plus(Plus(FVRead(1), FVRead(2)), FVRead(3)))>>
+FVShow == <<SLog(FVRead(1)), SLog(FVRead(2)), SLog(FVRead(3)), SLog(TypeOf(Var("fa"))), SLog(I(50))>>
+FVProg(kd) ==
+  CASE kd = "script" -> Prog(<<FVGlobals, SVar1("n", I(2))>> \o FVTouch(1) \o FVTouch(2) \o FVTouch(3) \o FVShow)
+    [] kd = "fn" -> Prog(<<FVGlobals, SFun("T", <<"n">>, FVUserBody), SLog(Call(Var("T"), <<I(1)>>)), SLog(Call(Var("T"), <<I(2)>>))>> \o FVShow)
+    [] kd = "closure" -> Prog(<<FVGlobals, SFun("mk", <<>>, <<SRet(Fun("", <<"n">>, <<SRet(Call(Fun("", <<>>, FVUserBody), <<>>))>>))>>),
+                               SVar1("T", Call(Var("mk"), <<>>)), SLog(Call(Var("T"), <<I(1)>>)), SLog(Call(Var("T"), <<I(2)>>))>> \o FVShow)
+    [] kd = "arrow" -> Prog(<<FVGlobals, SVar1("T", Arrow(<<"n">>, <<SRet(Call(Arrow(<<>>, FVUserBody), <<>>))>>)),
+                             SLog(Call(Var("T"), <<I(1)>>)), SLog(Call(Var("T"), <<I(2)>>))>> \o FVShow)
+    [] kd = "shadow" -> Prog(<<FVGlobals,
+                              SFun("O", <<"pa", "pb">>, <<SVar(<<Decl("va", Plus(Var("pa"), I(10))), Decl("wa", I(20)), Decl("vb", I(30))>>),
+                                                          SVar1("g", Fun("", <<"n">>, <<SExpr(Upd("++", FALSE, "va")), Set("pb", Plus(Var("pb"), Var("n"))),
+                                                                                       SRet(Plus(Plus(Var("pa"), Var("va")), Plus(Var("pb"), Var("wb"))))>>)),
+                                                          SLog(Call(Var("g"), <<I(1)>>)), SLog(Call(Var("g"), <<I(2)>>)),
+                                                          SRet(Plus(Plus(Var("va"), Var("wa")), Plus(Var("vb"), Var("pc"))))>>),
+                              SLog(Call(Var("O"), <<I(100), I(200)>>)), SLog(Call(Var("O"), <<I(300), I(400)>>))>> \o FVShow)
+    [] kd = "undecl" -> Prog(<<SLog(TypeOf(Var("pa"))), SLog(TypeOf(Var("wb"))), SLog(TypeOf(Var("fc"))),
+                              SFun("T", <<>>, <<SRet(Fun("", <<>>, <<SRet(TypeOf(Var("va")))>>))>>), SLog(Call(Call(Var("T"), <<>>), <<>>)),
+                              STry(SBlock(<<SExpr(Var("vb"))>>), "e", SBlock(<<SLog(Dot(Var("e"), "name"))>>), NoS),
+                              SLog(I(50)), SExpr(Var("wc"))>>)
+    [] kd = "fdecl" -> Prog(<<SFun("fa", <<"x">>, <<SRet(Plus(Var("x"), I(1)))>>), SFun("fb", <<"pa">>, <<SRet(Mul(Call(Var("fa"), <<Var("pa")>>), I(2)))>>),
+                             SFun("fc", <<"va">>, <<SVar1("wa", Call(Var("fb"), <<Var("va")>>)), SRet(Fun("", <<>>, <<SRet(Plus(Var("wa"), Var("va")))>>))>>),
+                             SLog(Call(Var("fb"), <<I(1)>>)), SLog(Call(Call(Var("fc"), <<I(3)>>), <<>>)), SLog(I(50))>>)
+    [] kd = "vbreak" -> Prog(<<SLog(I(1)), SBreak("")>>)
+    [] kd = "vcontinue" -> Prog(<<SLog(I(1)), SCont("")>>)
+    [] kd = "vbreakL" -> Prog(<<SLog(I(1)), SBreak("L")>>)
+FVIsExit(kd) == kd \in {"vbreak", "vcontinue", "vbreakL"}
+FVExp(kd) == IF FVIsExit(kd) THEN "syntax" ELSE IF kd = "undecl" THEN "jserror" ELSE "value"
+
+\* ======================= family TX: built-ins that compile or parse text at run time ======================================
+\* how the matcher is made x which method consumes it x flags x (pattern, subject) x where the call stands; and the other
+\* text-consuming built-ins.  No reference semantics here (C10 / C11 own regular expressions): only "always the same".
+TXPats == <<[p |-> "a+b", s |-> "xaabaab"], [p |-> "(o+)(x|y)", s |-> "fooxfooy"], [p |-> "id=", s |-> "zid=12;id=7"],
+            [p |-> "[0-9]+", s |-> "ab12cd345"], [p |-> "q.t", s |-> "qat qt q.t"]>>
+TXCtors == {"lit", "new", "call", "copy", "str"}
+TXApis == {"test", "exec", "match", "search", "replace", "split", "replaceAll"}
+TXQ(t) == "\"" \o t \o "\""
+TXRx(ct, p, f) ==
+  CASE ct = "lit" -> "/" \o p \o "/" \o f
+    [] ct = "new" -> "new RegExp(" \o TXQ(p) \o ", " \o TXQ(f) \o ")"
+    [] ct = "call" -> "RegExp(" \o TXQ(p) \o ", " \o TXQ(f) \o ")"
+    [] ct = "copy" -> "new RegExp(/" \o p \o "/" \o f \o ")"
+    [] ct = "str" -> TXQ(p)
+TXCall(api) ==
+  CASE api = "test" -> "R.test(S)" [] api = "exec" -> "R.exec(S)" [] api = "match" -> "S.match(R)" [] api = "search" -> "S.search(R)"
+    [] api = "replace" -> "S.replace(R, \"#\")" [] api = "split" -> "S.split(R)" [] api = "replaceAll" -> "S.replaceAll(R, \"#\")"
+TXSrc(c) ==
+  LET pt == TXPats[c.pat]
+      mk == "var R = " \o TXRx(c.ct, pt.p, c.fl) \o "; "
+      call == "String(" \o TXCall(c.api) \o ")"
+  IN CASE c.pl = "top" -> "var S = " \o TXQ(pt.s) \o "; " \o mk \o "var r1 = " \o call \o "; var r2 = " \o call \o "; r1 + \"|\" + r2;"
+       [] c.pl = "fn" -> "function F(S) { " \o mk \o "return " \o call \o " + \"|\" + " \o call \o "; } F(" \o TXQ(pt.s) \o ") + \"/\" + F(" \o TXQ(pt.s) \o ");"
+       [] c.pl = "loop" -> "var S = " \o TXQ(pt.s) \o "; var acc = \"\"; for (var i = 0; i < 3; i++) { " \o mk \o "acc = acc + " \o call \o " + \"|\"; } acc;"
+TXOther == <<
+    "var r = (1, eval)(\"var q = 2; q * 21\"); String(r);",
+    "var f = new Function(\"a\", \"b\", \"return a * b + 1\"); String(f(2, 3)) + \"|\" + String(f(4, 5));",
+    "var o = JSON.parse('{\"a\":[1,2,{\"b\":null}]}'); JSON.stringify(o);",
+    "String(parseInt(\"42px\")) + \"|\" + String(parseFloat(\"3.5e1x\")) + \"|\" + String(Number(\"0x1f\"));",
+    "var R = new RegExp(\"a+b\", \"gi\"); R.source + \"/\" + R.flags + \"/\" + String(R.lastIndex);",
+    "var t = \"a-b-c\".split(\"-\").join(\"+\") + /b+/.exec(\"abbbc\")[0]; t + \"abc\".indexOf(\"c\");",
+    "var g = function (s) { return s.match(\"b+\") + \":\" + s.search(\"c\") + \":\" + s.replace(\"b\", \"B\"); }; g(\"abbc\") + \" \" + g(\"cabbb\");"
+  >>
+TXAll == [k : {"rx"}, ct : TXCtors, api : TXApis, fl : {"", "g", "i"}, pat : 1..Len(TXPats), pl : {"top", "fn", "loop"}]
+TXValid(c) ==
+  /\ (c.ct = "str" => c.fl = "" /\ c.api \notin {"test", "exec"})              \* a string is no receiver, and has no flags
+  /\ (c.api = "replaceAll" => c.fl = "g" \/ c.ct = "str")                       \* TypeError otherwise: another property's subject
+\* quick: every (constructor, method) pair; every flag and pattern for three pairs; every place for three pairs
+TXQuickSel(c) ==
+  \/ (c.pat = 1 /\ c.pl = "top" /\ (c.fl = "" \/ c.api = "replaceAll"))
+  \/ (c.pl = "top" /\ <<c.ct, c.api>> \in {<<"lit", "match">>, <<"str", "match">>, <<"str", "search">>, <<"new", "exec">>})
+  \/ (c.pat = 2 /\ c.fl \in {"", "g"} /\ <<c.ct, c.api>> \in {<<"lit", "test">>, <<"str", "search">>, <<"call", "replace">>, <<"copy", "split">>})
+TXCases == {c \in TXAll : TXValid(c) /\ (~Quick \/ TXQuickSel(c))} \cup {[k |-> "x", j |-> j] : j \in 1..Len(TXOther)}
+TXText(c) == IF c.k = "rx" THEN TXSrc(c) ELSE TXOther[c.j]
+
+\* ======================= programs and histories ============================================================================
+ProgItems == {[fam |-> "CO", c |-> c] : c \in COCases} \cup {[fam |-> "FF", c |-> c] : c \in FFCases}
+             \cup {[fam |-> "FV", c |-> [kd |-> kd]] : kd \in FVKinds} \cup {[fam |-> "TX", c |-> c] : c \in TXCases}
+ItemId(it) == it                              \* the parameter record itself (printed as JSON; the driver uses it as a key)
+ItemAst(it) == it.fam # "TX"
+ItemProg(it) == CASE it.fam = "CO" -> COProg(it.c) [] it.fam = "FF" -> FFProg(it.c) [] it.fam = "FV" -> FVProg(it.c.kd) [] OTHER -> Prog(<<>>)
+ItemRef(it) == CASE it.fam = "CO" -> TRUE [] it.fam = "FF" -> FFRef(it.c) [] it.fam = "FV" -> ~FVIsExit(it.c.kd) [] OTHER -> FALSE
+ItemExp(it) == CASE it.fam = "CO" -> "value" [] it.fam = "FF" -> FFExp(it.c) [] it.fam = "FV" -> FVExp(it.c.kd) [] OTHER -> ""
+\* A history: programs evaluated one after the other, each on a fresh context, in one process that evaluated nothing before;
+\* the whole list `rounds` times; clk = "b2b": the clock only moves while a program runs, "gap": between two evaluations
+\* more time passes than any context's time limit.
+\*   HF : the bystanders (rotated by rot) with one failing program at position pos
+\*   HT : the TX programs of one pattern (all "other" ones for pat = 0), rotated
+InsertAt(sq, pos, x) == SubSeq(sq, 1, pos - 1) \o <<x>> \o SubSeq(sq, pos, Len(sq))
+Rot(sq, r) == [j \in 1..Len(sq) |-> sq[((j - 1 + r) % Len(sq)) + 1]]
+NV == Len(FVOrder)
+HFAll == [f : FFCases, pos : 1..(NV + 1), rot : 0..(NV - 1), clk : {"b2b", "gap"}]
+\* quick: the failing program first, in the middle, last; both clocks occur
+HFQuickSel(h) == \/ (h.pos = 1 /\ h.rot = 0 /\ h.clk = "gap")
+                 \/ (h.pos = 6 /\ h.rot = 3 /\ h.clk = "b2b")
+                 \/ (h.pos = NV + 1 /\ h.rot = 7 /\ h.clk = "gap")
+HFThoroughSel(h) == h.rot = (h.pos * 3) % NV
+HFCases == {h \in HFAll : IF Quick THEN HFQuickSel(h) ELSE HFThoroughSel(h)}
+HFItems(h) == InsertAt(Rot([j \in 1..NV |-> ItemId([fam |-> "FV", c |-> [kd |-> FVOrder[j]]])], h.rot), h.pos, ItemId([fam |-> "FF", c |-> h.f]))
+TXOfPat(pat) == IF pat = 0 THEN {c \in TXCases : c.k = "x"} ELSE {c \in TXCases : c.k = "rx" /\ c.pat = pat}
+HTCases == [pat : 0..Len(TXPats), rot : IF Quick THEN {0} ELSE {0, 5}, clk : {"b2b", "gap"}]
+SXQ == INSTANCE SequencesExt
+HTItems(h) == LET sq == SXQ!SetToSeq({ItemId([fam |-> "TX", c |-> c]) : c \in TXOfPat(h.pat)}) IN Rot(sq, h.rot % Len(sq))
+HistItems == {[fam |-> "HF", c |-> h] : h \in HFCases} \cup {[fam |-> "HT", c |-> h] : h \in HTCases}
+IsHist(it) == it.fam \in {"HF", "HT"}
+C15Items == ProgItems \cup HistItems
+ItemJson(it, steps) ==
+  IF IsHist(it)
+  THEN [kind |-> "hist", id |-> ItemId(it), fam |-> it.fam, items |-> IF it.fam = "HF" THEN HFItems(it.c) ELSE HTItems(it.c), rounds |-> 2, clk |-> it.c.clk]
+  ELSE [kind |-> "prog", id |-> ItemId(it), fam |-> it.fam, par |-> it.c, ast |-> ItemAst(it), prog |-> ItemProg(it),
+        src |-> IF it.fam = "TX" THEN TXText(it.c) ELSE "", ref |-> ItemRef(it), exp |-> ItemExp(it),
+        ml |-> IF it.fam = "FF" THEN FFMem(it.c) ELSE 0, steps |-> steps]
+\* Enum15: every program MiniJS can run runs on the reference machine (its invariants on every state, termination inside the
+\* fragment); the others and the histories are printed as they are
+Enum15Init == /\ rec_i = 0 /\ cur \in C15Items
+              /\ mst = InitState(IF ~IsHist(cur) /\ ItemRef(cur) THEN ItemProg(cur) ELSE Prog(<<>>), {})
+Enum15Emit == ~Halted(mst) \/ PrintT(ToJson(ItemJson(cur, mst.steps)))
 =============================================================================
